@@ -76,6 +76,16 @@ pub fn make_store(std_store: bool) -> GlobalDataArc {
     {
         let mut g = gd.lock().unwrap();
         RFsmExpressionDatamodel::add_internal_functions_to_wrapper(&mut g.actions);
+    }
+    fill_store(&gd, std_store);
+    gd
+}
+
+/// (re)creates the variables of the standard store; everything else in the store is removed
+pub fn fill_store(gd: &GlobalDataArc, std_store: bool) {
+    {
+        let mut g = gd.lock().unwrap();
+        g.data.map.clear();
         if std_store {
             g.data.set_undefined("n".to_string(), Data::Integer(5));
             g.data.set_undefined("s".to_string(), Data::String("str".to_string()));
@@ -93,7 +103,6 @@ pub fn make_store(std_store: bool) -> GlobalDataArc {
             g.data.set_undefined_arc("ro".to_string(), ro);
         }
     }
-    gd
 }
 
 fn store_dump(gd: &GlobalDataArc) -> Value {
@@ -150,7 +159,12 @@ fn eval_all(text: &str, std_store: bool, id: usize) -> Value {
     };
     let pb = probe(&gd2);
     let store_b = store_dump(&gd2);
-    json!({"a": a, "b1": b1, "b2": b2, "c": c, "probe": pa && pb, "store": store, "store_b": store_b})
+    // path b3: the store is put back to its initial contents, the compilation cache of the datamodel is kept: the
+    // cached compilation must behave on a fresh store exactly like the fresh compilation did
+    fill_store(&gd2, std_store);
+    let b3 = enc_result(&dm.execute(&src));
+    let store_b3 = store_dump(&gd2);
+    json!({"a": a, "b1": b1, "b2": b2, "b3": b3, "c": c, "probe": pa && pb, "store": store, "store_b": store_b, "store_b3": store_b3})
 }
 
 pub fn run_file(input: &str, output: &str) -> std::io::Result<()> {
